@@ -3,16 +3,28 @@ module verif/harness
 go 1.21
 
 require (
+	github.com/dgraph-io/badger v1.6.2
 	github.com/jirenius/go-res v0.0.0
 	github.com/nats-io/nats.go v1.10.0
 )
 
 require (
+	github.com/AndreasBriese/bbloom v0.0.0-20190825152654-46b345b51c96 // indirect
+	github.com/cespare/xxhash v1.1.0 // indirect
+	github.com/dgraph-io/ristretto v0.0.2 // indirect
+	github.com/dustin/go-humanize v1.0.0 // indirect
+	github.com/golang/protobuf v1.4.0 // indirect
+	github.com/jirenius/keylock v1.0.0 // indirect
+	github.com/jirenius/taskqueue v1.1.0 // indirect
 	github.com/jirenius/timerqueue v1.0.0 // indirect
 	github.com/nats-io/jwt v0.3.2 // indirect
 	github.com/nats-io/nkeys v0.1.4 // indirect
 	github.com/nats-io/nuid v1.0.1 // indirect
+	github.com/pkg/errors v0.8.1 // indirect
 	golang.org/x/crypto v0.0.0-20200323165209-0ec3e9974c59 // indirect
+	golang.org/x/net v0.0.0-20190620200207-3b0461eec859 // indirect
+	golang.org/x/sys v0.0.0-20190726091711-fc99dfbffb4e // indirect
+	google.golang.org/protobuf v1.22.0 // indirect
 )
 
 replace github.com/jirenius/go-res => /repo
